@@ -119,6 +119,7 @@ func runC11(c *Config, r *Report) {
 	// (same analysis as C05/R05.6: method resolution is recomputed, never remembered)
 	pureLookups(ic, r, "R11.10")
 	c11R11(ic, r)
+	c11R12(ic, r)
 }
 
 func c11R2(ic *IC, r *Report) {
@@ -961,5 +962,147 @@ func c11R11(ic *IC, r *Report) {
 	})
 	if n == 0 {
 		r.Errorf("R11.11: no call of genGlobalVars is reached from importSrc (directly or through one helper)")
+	}
+}
+
+func init() {
+	ruleText["R11.12"] = "the main function is added to the functions a compiled unit starts only under a condition relating its declaration node to the root(s) of the tree being compiled: a main declared by an earlier evaluation has run and is not started again by every later one"
+}
+
+// c11R12: in every function appending `<S>.node`, S looked up in a symbol table under the
+// constant "main", to a []*node list, the append is guarded (enclosing ifs, or the ifs of an
+// enclosing range loop) by an expression mentioning both S and a root of the tree being
+// compiled - a *node (or element of a []*node) the same function hands to the cfg pass. Found D59.
+func c11R12(ic *IC, r *Report) {
+	info := ic.Info
+	mainC, _ := ic.Pk.Types.Scope().Lookup("mainID").(*types.Const)
+	cfgFn := ic.F[ic.resolveName("Interpreter.cfg")]
+	if mainC == nil || cfgFn == nil || cfgFn.Obj == nil {
+		r.Errorf("R11.12: anchors mainID / (*Interpreter).cfg not resolved")
+		return
+	}
+	n := 0
+	for _, name := range sortedKeys(ic.F) {
+		fi := ic.F[name]
+		if fi.Decl.Body == nil {
+			continue
+		}
+		// symbols looked up under mainID
+		mains := map[types.Object]bool{}
+		ast.Inspect(fi.Decl.Body, func(m ast.Node) bool {
+			as, ok := m.(*ast.AssignStmt)
+			if !ok || len(as.Lhs) < 1 || len(as.Rhs) != 1 {
+				return true
+			}
+			ix, ok := unparen(as.Rhs[0]).(*ast.IndexExpr)
+			if !ok {
+				return true
+			}
+			if id := identOf(ix.Index); id != nil && info.ObjectOf(id) == mainC {
+				if lid := identOf(as.Lhs[0]); lid != nil {
+					mains[info.ObjectOf(lid)] = true
+				}
+			}
+			return true
+		})
+		if len(mains) == 0 {
+			continue
+		}
+		// roots: first arguments of calls of the cfg pass, and the slices ranged over to get them
+		roots := map[types.Object]bool{}
+		ast.Inspect(fi.Decl.Body, func(m ast.Node) bool {
+			call, ok := m.(*ast.CallExpr)
+			if !ok || calleeOf(info, call) != cfgFn.Obj || len(call.Args) == 0 {
+				return true
+			}
+			if id := identOf(call.Args[0]); id != nil {
+				roots[info.ObjectOf(id)] = true
+			}
+			return true
+		})
+		ast.Inspect(fi.Decl.Body, func(m ast.Node) bool {
+			rs, ok := m.(*ast.RangeStmt)
+			if !ok || rs.Value == nil {
+				return true
+			}
+			if v := identOf(rs.Value); v != nil && roots[info.ObjectOf(v)] {
+				if s := identOf(rs.X); s != nil {
+					roots[info.ObjectOf(s)] = true
+				}
+			}
+			return true
+		})
+		// every range value over a root slice is a root too
+		ast.Inspect(fi.Decl.Body, func(m ast.Node) bool {
+			rs, ok := m.(*ast.RangeStmt)
+			if !ok || rs.Value == nil {
+				return true
+			}
+			if s := identOf(rs.X); s != nil && roots[info.ObjectOf(s)] {
+				if v := identOf(rs.Value); v != nil {
+					roots[info.ObjectOf(v)] = true
+				}
+			}
+			return true
+		})
+		mentions := func(e ast.Node, set map[types.Object]bool) bool {
+			found := false
+			ast.Inspect(e, func(k ast.Node) bool {
+				if id, ok := k.(*ast.Ident); ok && set[info.ObjectOf(id)] {
+					found = true
+				}
+				return true
+			})
+			return found
+		}
+		ast.Inspect(fi.Decl.Body, func(m ast.Node) bool {
+			call, ok := m.(*ast.CallExpr)
+			if !ok || len(call.Args) < 2 {
+				return true
+			}
+			if id := identOf(call.Fun); id == nil || id.Name != "append" {
+				return true
+			}
+			if _, isB := info.Uses[identOf(call.Fun)].(*types.Builtin); !isB {
+				return true
+			}
+			isMainNode := false
+			for _, a := range call.Args[1:] {
+				if v := selField(info, a); v != nil && v.Name() == "node" && mentions(a, mains) {
+					isMainNode = true
+				}
+			}
+			if !isMainNode {
+				return true
+			}
+			n++
+			guarded := false
+			for _, p := range enclosingPath(fi.Decl.Body, call) {
+				ifs, ok := p.(*ast.IfStmt)
+				if !ok {
+					continue
+				}
+				// a single call or comparison mentioning both
+				ast.Inspect(ifs.Cond, func(k ast.Node) bool {
+					switch e := k.(type) {
+					case *ast.CallExpr:
+						if mentions(e, mains) && mentions(e, roots) {
+							guarded = true
+						}
+					case *ast.BinaryExpr:
+						if (e.Op == token.EQL || e.Op == token.NEQ) && mentions(e, mains) && mentions(e, roots) {
+							guarded = true
+						}
+					}
+					return true
+				})
+			}
+			r.Check(guarded, "R11.12", funcName(fi.Decl)+"/main-started-by-the-unit-declaring-it", ic.pos(call.Pos()), "main is started only if declared in the tree being compiled",
+				funcName(fi.Decl)+" adds the main function found in the package scope to the functions to start without relating its declaration to the tree being compiled: once main has been defined, every later Eval of the interpreter (a declaration, an expression) runs it again")
+			return true
+		})
+	}
+	if n < 2 {
+		r.Errorf("R11.12: %d sites starting the main function found (CompileAST and importSrc expected)", n)
 	}
 }
